@@ -386,12 +386,11 @@ class PrettyPrinter:
             # to a $ref) describes the value in the same way as the schema itself
             attr_props = attr_props["allOf"][0]
 
-        if any(i in ["enum"] for i in attr_props):
-            if isinstance(value, dict) and not value:
-                raise ValueError(
-                    f"The property {attr} has an empty dictionary as a value"
-                )
+        if isinstance(value, dict) and not value:
+            # e.g. created by checking for a missing key on a mappyfile dict
+            raise ValueError(f"The property {attr} has an empty dictionary as a value")
 
+        if any(i in ["enum"] for i in attr_props):
             if not isinstance(value, numbers.Number):
                 if attr == "compop":
                     return self.quoter.add_quotes(str(value))
